@@ -19,6 +19,7 @@ import (
 //	drop     a node that disconnects (calls onStop) without serving
 //	drop-busy a node that disconnects after the first transaction while the handler stays busy for 7 virtual seconds
 //	silent   a node that never answers
+//	wait-next a node whose block arrives while the requestor's next call is under way
 //	none     no node available
 type fakeRequestor struct {
 	mu        vsched.Mutex
@@ -31,8 +32,9 @@ type fakeRequestor struct {
 	bm        *bitcoin_reader.BlockManager
 	limit     int
 	overLimit string
-	silent    []*fakeNode // nodes that accepted a request and never answer
-	silentAt  []time.Time // when each of them was asked
+	waitNext  []chan struct{} // "wait-next" nodes deliver when the requestor is called the next time
+	silent    []*fakeNode     // nodes that accepted a request and never answer
+	silentAt  []time.Time     // when each of them was asked
 }
 
 func (r *fakeRequestor) RequestBlock(ctx context.Context, hash bitcoin.Hash32, handler bitcoin_reader.HandleBlock,
@@ -47,7 +49,12 @@ func (r *fakeRequestor) RequestBlock(ctx context.Context, hash bitcoin.Hash32, h
 	}
 	r.requests = append(r.requests, hash)
 	blk := r.blocks[hash]
+	waiting := r.waitNext
+	r.waitNext = nil
 	r.mu.Unlock()
+	for _, ch := range waiting {
+		vsched.Close(ch) // the earlier node's block arrives while this call is under way
+	}
 	if r.bm != nil {
 		// concurrency limit: at the time of a new request fewer downloads of this block than the
 		// configured number may be registered
@@ -58,6 +65,9 @@ func (r *fakeRequestor) RequestBlock(ctx context.Context, hash bitcoin.Hash32, h
 		}
 	}
 	if behaviour == "none" || blk == nil {
+		if len(waiting) > 0 {
+			vsched.Yield() // the call takes its time (see the end of this function)
+		}
 		return nil, bitcoin_reader.ErrNodeNotAvailable
 	}
 	node := &fakeNode{id: uuid.New()}
@@ -68,8 +78,18 @@ func (r *fakeRequestor) RequestBlock(ctx context.Context, hash bitcoin.Hash32, h
 		r.silentAt = append(r.silentAt, vsched.Now())
 		r.mu.Unlock()
 	}
+	var next chan struct{}
+	if behaviour == "wait-next" {
+		next = make(chan struct{})
+		r.mu.Lock()
+		r.waitNext = append(r.waitNext, next)
+		r.mu.Unlock()
+	}
 	vsched.GoNamed(fmt.Sprintf("node%d-%s", i, behaviour), func() {
 		switch behaviour {
+		case "wait-next":
+			vsched.Recv(next)
+			node.deliver(blk, len(blk.txs))
 		case "deliver":
 			node.deliver(blk, len(blk.txs))
 		case "slow":
@@ -82,6 +102,10 @@ func (r *fakeRequestor) RequestBlock(ctx context.Context, hash bitcoin.Hash32, h
 		case "silent":
 		}
 	})
+	// the call into the requestor takes its time (it talks to a node): a free switch before it
+	// returns, so that a download can finish - and the block be marked complete - while the
+	// manager is still inside this call and not yet waiting in its select
+	vsched.Yield()
 	return node, nil
 }
 
@@ -296,7 +320,10 @@ func managerScenarios(thorough bool) []*scenario {
 	configs = append(configs,
 		mgrConfig{script: []string{"none"}, concurrent: 1, requests: 1},
 		mgrConfig{script: []string{"none"}, concurrent: 1, requests: 2},
-		mgrConfig{script: []string{"drop"}, concurrent: 2, requests: 2})
+		mgrConfig{script: []string{"drop"}, concurrent: 2, requests: 2},
+		// the first source's block arrives exactly while the manager is inside its next request to
+		// the requestor (second source of the same block): the completion must not be missed
+		mgrConfig{script: []string{"wait-next", "none"}, concurrent: 2, requests: 1})
 	if thorough {
 		configs = append(configs,
 			mgrConfig{script: []string{"slow", "deliver"}, concurrent: 2, requests: 1, abort: true},
